@@ -146,7 +146,7 @@ CLAIMS.update({
 PENDING = {}
 
 def main():
-    hooks_commit = "58af5e8"
+    hooks_commits = ["58af5e8", "d283225"]
     checks = []
     for pid in sorted(CLAIMS):
         c = CLAIMS[pid]
@@ -168,7 +168,7 @@ def main():
             "guard": "seed_verif",
             "enable": "RUSTFLAGS=\"--cfg seed_verif\" cargo build --offline --target-dir /verif/.build/target (run by every check)",
             "baseline_off_cmd": "cd /repo && cargo nextest run --workspace --no-fail-fast --test-threads 8 --offline || cargo test --workspace --no-fail-fast --offline",
-            "source_commits": [hooks_commit],
+            "source_commits": hooks_commits,
             "add_only": True,
         },
         "engines": [{"name": "lean-model", "path": "/verif/lean", "serves_properties": sorted(CLAIMS),
